@@ -400,6 +400,16 @@ def _enum_fills():
 OUT_BOUNDARY = [0, 1, 2, 255, 256, 257, 65535, 65536, 65537, 2 ** 24 - 1, 2 ** 24, 2 ** 24 + 1]
 
 
+def _enum_many_frames():
+    # a burst of very many small frames handed over in one read, in two halves, and in socket-sized reads
+    for count in (300, 1100, 3000):
+        for size in (1, 2):
+            lens = [size] * count
+            L = sum(3 + n for n in lens)
+            for cuts in ([], [L // 2], list(range(1024, L, 1024))):
+                yield {"sub": "stream", "lens": lens, "fills": [0], "cuts": cuts}
+
+
 def _enum_upper_raises():
     # the layer above fails on one frame of a short stream: every position of the failing frame, whole-stream / per-frame / per-byte chunks
     for lens in ([2, 3, 1], [5, 1, 1, 4]):
@@ -425,6 +435,9 @@ def stream_strategy(tier):
         ls = draw(lens)
         if sum(ls) > 300000:
             ls = ls[:3]
+        if draw(st.integers(0, 14)) == 0:
+            # very many small frames (the number of frames per read is not bounded by anything)
+            ls = [draw(st.integers(1, 3))] * draw(st.sampled_from([200, 999, 1000, 1500, 4000]))
         L = sum(3 + n for n in ls)
         bounds = list(itertools.accumulate(3 + n for n in ls))
         # cut positions biased towards header bytes and frame ends
@@ -482,6 +495,7 @@ def plan(tier):
             ("adversarial_fill_partitions", _enum_fills),
             ("outgoing_boundaries", _enum_outgoing),
             ("upper_layer_fails_on_a_frame", _enum_upper_raises),
+            ("many_small_frames_in_one_read", _enum_many_frames),
             ("through_the_dispatcher", _enum_dispatcher),
         ],
         "exhaustive": ["partitions_len1-%d" % (3 if quick else 4), "adversarial_fill_partitions"],
